@@ -120,6 +120,17 @@ CHECKS = {
              'journal compression on, non-zero garbage after a torn record.',
         technique='MIR symbolic execution of writer and reader over a byte-level symbolic file + z3 (UF checksum); native cut-image replay',
     ),
+    'C15': dict(
+        category='model_checking',
+        text='Byte-level MIR execution of the journal writer and reader (as for C03): every unit shape (all value kinds, clear, batches) written by the real writer is read back with '
+             'identical seqno / keyspace ids / kinds / keys / values; for EVERY byte position of a journal of complete units and EVERY other value of that byte, z3 decides that opening '
+             'fails or yields an identical prefix (checksum modelled as collision-free); the writer\'s compression choice depends only on threshold and length and the reader only on the stored tag. '
+             'The solver finds the bytes outside the checksum (Start.seqno): known finding, replayed natively by flipping the byte in a real journal.',
+        design_ref='DESIGN.md §5 C15',
+        note='Not applicable (clause): bit-exactness of LZ4 and values around the compression threshold (lz4_flex whole-buffer loops; assumed F6, exercised natively only). '
+             'Outside: keys > 2 / values > 2 bytes, more than one altered byte, checksum collisions (F5).',
+        technique='MIR symbolic execution of writer and reader over a byte-level symbolic file + z3; native byte-flip replay',
+    ),
 }
 
 NOT_YET = {}
